@@ -6,8 +6,12 @@ EXTENDS Naturals, Sequences, FiniteSets, SequencesExt, Json, IOUtils, TLC, TLCEx
 All == ndJsonDeserialize(IOEnv.OBS_FILE)
 
 \* ---- C10
-P_InOrderOnce(o) == IsPrefix(o.delivered, o.issued)
-P_Goal(o) == o.goal => o.delivered = o.issued
+\* (an application that registers its listener late gets what was held for it subchannel by subchannel: the order promised is
+\* then the order within each subchannel - open, everything written, close)
+PerSubPrefix(o) == /\ Len(o.perSub.delivered) = Len(o.perSub.issued)
+                   /\ \A i \in 1..Len(o.perSub.issued) : IsPrefix(o.perSub.delivered[i], o.perSub.issued[i])
+P_InOrderOnce(o) == IF o.kind = "l4" /\ o.lateListen THEN PerSubPrefix(o) ELSE IsPrefix(o.delivered, o.issued)
+P_Goal(o) == o.goal => IF o.kind = "l4" /\ o.lateListen THEN o.perSub.delivered = o.perSub.issued ELSE o.delivered = o.issued
 
 \* ---- C13: o.ends maps "<id><o|a>" to [ev, peerWrote, errors]
 E(o) == DOMAIN o.ends
